@@ -387,20 +387,29 @@ def install():
     ca.CONSISTENCY_ALG_FCTS[:] = [wrap_ca(i, f) for i, f in enumerate(ca.CONSISTENCY_ALG_FCTS)]
     hh.VAR_HEURISTIC_FCTS[:] = [wrap_vh(i, f) for i, f in enumerate(hh.VAR_HEURISTIC_FCTS)]
     hh.DOM_HEURISTIC_FCTS[:] = [wrap_dh(f) for f in hh.DOM_HEURISTIC_FCTS]
-    sh.bound_consistency_algorithm = wrap_ca(0, sh.bound_consistency_algorithm)
-    sh.min_value_dom_heuristic = wrap_dh(sh.min_value_dom_heuristic)
-    sh.max_value_dom_heuristic = wrap_dh(sh.max_value_dom_heuristic)
-    sh.first_not_instantiated_var_heuristic = wrap_vh(0, sh.first_not_instantiated_var_heuristic)
-    bt = wrap_bt(bs.backtrack)
-    bs.backtrack = bt
-    sh.backtrack = bt
-    bca.pop_propagator = wrap_pop(bca.pop_propagator)
-    bs.add_propagators = wrap_add(bs.add_propagators)
-    sh.add_propagators = wrap_add(sh.add_propagators)
-    bs.reset = wrap_reset(bs.reset)
-    bs.decrease_max = wrap_tighten(bs.decrease_max, "min")
-    bs.increase_min = wrap_tighten(bs.increase_min, "max")
-    bs.solve_one = wrap_solve_one(bs.solve_one)
+    # module-level names of the engine are wrapped WHEN THEY EXIST: a refactoring that renames or inlines one of them
+    # loses an optional observation (a "V" event inside shaving, the strict mechanism events), never the run itself -
+    # resumes are recognised by the state, the passes and the branches through the registries above
+    def opt(mod, name, wrapper):
+        if hasattr(mod, name):
+            setattr(mod, name, wrapper(getattr(mod, name)))
+
+    opt(sh, "bound_consistency_algorithm", lambda f: wrap_ca(0, f))
+    opt(sh, "min_value_dom_heuristic", wrap_dh)
+    opt(sh, "max_value_dom_heuristic", wrap_dh)
+    opt(sh, "first_not_instantiated_var_heuristic", lambda f: wrap_vh(0, f))
+    if hasattr(bs, "backtrack"):
+        bt = wrap_bt(bs.backtrack)
+        bs.backtrack = bt
+        if hasattr(sh, "backtrack"):
+            sh.backtrack = bt
+    opt(bca, "pop_propagator", wrap_pop)
+    opt(bs, "add_propagators", wrap_add)
+    opt(sh, "add_propagators", wrap_add)
+    opt(bs, "reset", wrap_reset)
+    opt(bs, "decrease_max", lambda f: wrap_tighten(f, "min"))
+    opt(bs, "increase_min", lambda f: wrap_tighten(f, "max"))
+    opt(bs, "solve_one", wrap_solve_one)
 
 
 # ----------------------------------------------------------------------------- running one item
